@@ -1,6 +1,6 @@
 (* C17 — property theorems only. *)
 From Coq Require Import ZArith List Bool Lia.
-From PyQMC Require Import C17.Model C17.Proofs C17.Exhaustive.
+From PyQMC Require Import C17.Model C17.Proofs C17.Exhaustive C17.Diagonal.
 Import ListNotations. Open Scope Z_scope.
 
 (* the returned images are exactly the integer points n (primitive translates) whose supercell-fractional
@@ -67,3 +67,10 @@ Example C17_nontrivial_instance :
   det3 (1,-2,0,2,1,1,0,-1,2) = 11 /\ length (copies true (1,-2,0,2,1,1,0,-1,2)) = 11%nat.
 Proof. split; vm_compute; reflexivity. Qed.
 Print Assumptions C17_nontrivial_instance.
+
+(* every DIAGONAL supercell matrix with non-zero entries of any size and sign has exactly |det S| images (the closed search box of the
+   current code): the unbounded complement, for the most common supercells, of the exhaustive theorem above *)
+Theorem C17_card_is_abs_det_for_diagonal_S : forall a e i : Z, a <> 0 -> e <> 0 -> i <> 0 ->
+  Z.of_nat (length (copies true (a, 0, 0, 0, e, 0, 0, 0, i))) = Z.abs (det3 (a, 0, 0, 0, e, 0, 0, 0, i)).
+Proof. exact diagonal_supercell_count. Qed.
+Print Assumptions C17_card_is_abs_det_for_diagonal_S.
